@@ -124,7 +124,7 @@ def tab_lifecycle(chk: Check) -> None:
 # ---------------------------------------------------------------------- 3. OWN-state
 def own_state(chk: Check) -> None:
     prog = chk.prog
-    writers = attr_writers(prog, '_state')
+    writers = __import__('plumpy_sa.rules', fromlist=['effective_writers']).effective_writers(prog, '_state')
     chk.floor('OWN-state', len(writers), 2)
     sm = prog.cls('base.state_machine.StateMachine')
     for f, node in writers:
@@ -135,7 +135,7 @@ def own_state(chk: Check) -> None:
                'the current-state attribute is written only inside class StateMachine and by Process.load_instance_state',
                node=node, kind='state-writer', expr='_state store')
     # the failed-transition bypass flag is raised only by transition_to itself
-    for f, node in attr_writers(prog, '_transition_failing'):
+    for f, node in __import__('plumpy_sa.rules', fromlist=['effective_writers']).effective_writers(prog, '_transition_failing'):
         chk.ob('OWN-state', f, f.owner_class is sm, '_transition_failing (exit-check bypass) written only in StateMachine',
                node=node, kind='bypass-flag-writer', expr='_transition_failing store')
 
@@ -229,7 +229,7 @@ def dom_allowed_check(chk: Check) -> None:
                   and all(any(r is y for y in ast.walk(t)) for r in raised) for t in ast.walk(tt.node))
     chk.ob('DOM-allowed-check', tt, lowered, 'and lowered in the finally of that same try: the bypass never outlives the failed transition (otherwise every later '
            'transition would skip the ALLOWED test)', kind='bypass-lowered-in-finally')
-    for f2, node in attr_writers(prog, '_transition_failing'):
+    for f2, node in __import__('plumpy_sa.rules', fromlist=['effective_writers']).effective_writers(prog, '_transition_failing'):
         if f2 is not tt and not (isinstance(node, ast.Attribute) and False):
             val = None
             for a in ast.walk(f2.node):
@@ -239,7 +239,7 @@ def dom_allowed_check(chk: Check) -> None:
                    expr='_transition_failing store')
     # the write of _state happens in _enter_next_state only after the ENTERING hook and do_enter
     en = prog.func('base.state_machine.StateMachine._enter_next_state')
-    chk.ob('DOM-allowed-check', en, any(f is en for f, _ in attr_writers(prog, '_state')),
+    chk.ob('DOM-allowed-check', en, any(f.qualname == en.qualname for f, _ in __import__('plumpy_sa.rules', fromlist=['effective_writers']).effective_writers(prog, '_state')),
            '_enter_next_state is where the current state is replaced', kind='enter-writes-state')
     callers = [f for f, c in call_sites(prog, '_enter_next_state')]
     chk.ob('DOM-allowed-check', en, all(f is tt for f in callers), f'_enter_next_state called only from transition_to '
